@@ -141,10 +141,10 @@ func runCase(ctx context.Context, s *hx.Session, tc tcase) error {
 		switch {
 		case tc.root && r == "err:timeout":
 			s.Fail("C04/first-root-race", "two writers create the first root of an empty store: the one that registers second fails (after spinning until its deadline)", detail)
-		case r == "err:itemlock" && o.Foreign:
+		case (r == "err:itemlock" || r == "err:merge") && o.Foreign:
 			// some writer's inner-node removal published a lock record under the SUCCESSOR's identity, which is
 			// another writer's item
-			s.Fail("C04/merge-removes-another-item-after-inner-node-removal", "an inner-node removal is tracked (and lock-recorded) under the successor's identity: a writer on that successor item meets a lock conflict although the key sets are disjoint", detail)
+			s.Fail("C04/merge-removes-another-item-after-inner-node-removal", "an inner-node removal is tracked (and lock-recorded) under the successor's identity: a writer on that successor item meets a lock conflict, or the replay of the mis-tracked removal fails, although the key sets are disjoint", detail)
 		case r == "err:itemlock" && o.Refused[w] > 0:
 			s.Fail("C04/self-lock-conflict-after-refused-node-lock", "a writer with an update/remove whose node lock was refused once fails its commit on its OWN item lock records", detail)
 		default:
